@@ -48,10 +48,12 @@ def rule_writeonce(ctx):
             c = t.get('callee')
             if not c or not t['args']:
                 continue
-            if c.get('crate') != 'dashmap' and 'dashmap::' not in t['arg_tys'][0]:
-                continue
+            impl_by_dashmap = c.get('crate') == 'dashmap' or 'dashmap::' in (c.get('resolved_impl_self') or '') \
+                or 'dashmap::' in (c.get('impl_self') or '')
             rty = t['arg_tys'][0]
-            if 'dashmap::' not in rty:
+            # Arc<DashMap> clone/deref are implemented by std for Arc: keep them as sharing sites
+            arc_dash = rty.replace('&', '').strip().startswith('std::sync::Arc<dashmap::') and c['name'] in ('clone', 'deref')
+            if not (impl_by_dashmap or arc_dash) or 'dashmap::' not in rty:
                 continue
             head = dash_head(rty)
             n = c.get('name')
@@ -118,7 +120,9 @@ def rule_key(ctx):
     for b in f.body_list:
         if b.promoted is not None:
             continue
-        opts = _options_params(b)
+        rootb = f.body(b.d.get('root') or b.path) or b
+        opts = _options_params(rootb)
+        rkey = rootb.key
         for pt, t in b.calls():
             c = t.get('callee')
             if not c or not t['args'] or c.get('crate') != 'dashmap':
@@ -128,7 +132,7 @@ def rule_key(ctx):
             if head == 'DashMap' and n in ('get', 'entry', 'insert', 'contains_key', 'get_mut', 'remove'):
                 key = b.expr_of_operand(t['args'][1])
                 roots = [root for root, fs in access_paths(key, through_calls={'clone', 'borrow', 'deref', 'to_owned'}) if not fs]
-                ok = bool(roots) and all(root[0] == 'arg' and root[1] in opts for root in roots)
+                ok = bool(roots) and all(root[0] == 'arg' and root[3] == rkey and root[1] in opts for root in roots)
                 r.site('%s: cache %s(key)' % (b.path, n), t['s'], 'ok' if ok else 'violation')
                 if not ok:
                     r.violation('%s:key:%s' % (b.path, n), t['s'], b.path,
@@ -142,7 +146,7 @@ def rule_key(ctx):
                     if x[0] == 'call':
                         for a in x[2]:
                             for root, fs in access_paths(a, through_calls={'clone', 'borrow', 'deref'}):
-                                if root[0] == 'arg' and root[1] in opts and not fs:
+                                if root[0] == 'arg' and root[3] == rkey and root[1] in opts and not fs:
                                     ok = True
                 r.site('%s: cached value computed from the same options' % b.path, t['s'], 'ok' if ok else 'violation')
                 if not ok:
@@ -158,6 +162,40 @@ def rule_key(ctx):
                         'MapOptions\' %s is not the derived one: a hand-written impl may ignore a field of the key' % tr)
     r.check_floor()
     return r
+
+
+def _cell_param_ok(f, hb, param, depth=0):
+    """helper function hb receives a memo cell as parameter `param`: every use of it must be get/get_or_init/clone/deref (or a
+    further such helper); returns (ok, [(call term, initialiser closure body)])"""
+    inits = []
+    if depth > 2:
+        return False, inits
+    for pt, t in hb.calls():
+        c = t.get('callee')
+        if not c:
+            continue
+        for ai, a in enumerate(t['args']):
+            e = hb.expr_of_operand(a)
+            if not any(root[0] == 'arg' and root[1] == param and root[3] == hb.key and not fs
+                       for root, fs in access_paths(e, through_calls=NARROW)):
+                continue
+            n = c['name']
+            if n in ('get_or_init', 'get', 'clone', 'deref'):
+                if n == 'get_or_init' and ai == 0 and len(t['args']) > 1:
+                    cl = None
+                    for x in walk(hb.expr_of_operand(t['args'][1])):
+                        if x[0] == 'agg' and x[1] == 'closure':
+                            cl = f.body(x[2])
+                    inits.append((t, cl))
+                continue
+            nb = f.body(c.get('resolved') or c['path'])
+            if nb is not None and nb.d['kind'] != 'Closure':
+                ok2, in2 = _cell_param_ok(f, nb, ai + 1, depth + 1)
+                if ok2:
+                    inits += in2
+                    continue
+            return False, inits
+    return True, inits
 
 
 def rule_memo(ctx):
@@ -196,6 +234,14 @@ def rule_memo(ctx):
                         if fs and fs[-1] == fl and expr_mentions_field(e, fl, adt):
                             n = c['name']
                             ok = n in ('get_or_init', 'get', 'clone', 'deref', 'default')
+                            hb = f.body(c.get('resolved') or c['path'])
+                            if not ok and hb is not None and hb.d['kind'] != 'Closure':
+                                # a crate-local helper that receives the cell: it must itself only apply the allowed operations
+                                hok, hinits = _cell_param_ok(f, hb, ai + 1)
+                                if hok:
+                                    ok = True
+                                    for ht, hcl in hinits:
+                                        inits.setdefault((adt, fl), []).append((hb, ht, hcl))
                             r.site('%s: cell %s.%s used by `%s`' % (b.path, adt.rsplit('::', 1)[-1], fl, n), t['s'],
                                    'ok' if ok else 'violation')
                             if not ok:
